@@ -307,7 +307,7 @@ fn c16_shapes(ctx: &mut Ctx, rng: &Rng, fmt: Fmt, c: &Case, lean: bool) -> u64 {
     };
     let (int, frac, e) = (&c.int[..], &c.frac[..], c.exp);
     // (a) iterator shapes
-    let all: Vec<u64> = if lean { vec![rng.below(11)] } else { (0..11).collect() };
+    let all: Vec<u64> = if lean { vec![rng.below(12)] } else { (0..12).collect() };
     for shape in all {
         sink::reset();
         match shape {
@@ -438,6 +438,27 @@ fn c16_shapes(ctx: &mut Ctx, rng: &Rng, fmt: Fmt, c: &Case, lean: bool) -> u64 {
                 diag(ctx, "nonfused_rewinding_cursor", r);
                 let r = util::catch(|| parse_iters(fmt, text.iter().scan((), |_, c| if c.is_ascii_digit() { Some(c) } else { None }), Rewinding { data: frac, pos: 0 }, e));
                 diag(ctx, "nonfused_scan_over_literal", r);
+            }
+            11 => {
+                // items that SHARE addresses: every digit mapped through a static table (equal digits are the same
+                // reference), and zero padding served from one shared byte (`repeat(&ZERO).take(n)`) - fused, cloneable,
+                // same byte sequence; only code that identifies a position by the address of an item can tell
+                static TABLE: [u8; 10] = *b"0123456789";
+                static ZERO: u8 = b'0';
+                if int.iter().chain(frac.iter()).all(|c| c.is_ascii_digit()) {
+                    let r = util::catch(|| parse_iters(fmt, int.iter().map(|&c| &TABLE[(c - b'0') as usize]), frac.iter().map(|&c| &TABLE[(c - b'0') as usize]), e));
+                    check(ctx, "shared_addresses_digit_table", r, Some(sink::path()));
+                    // trailing zeros of the integer part and leading zeros of the fraction from the shared byte
+                    let tz = int.iter().rev().take_while(|&&c| c == b'0').count();
+                    let lz = frac.iter().take_while(|&&c| c == b'0').count();
+                    let (ih, ft) = (&int[..int.len() - tz], &frac[lz..]);
+                    sink::reset();
+                    let r = util::catch(|| {
+                        parse_iters(fmt, ih.iter().chain(std::iter::repeat(&ZERO).take(tz)), std::iter::repeat(&ZERO).take(lz).chain(ft.iter()), e)
+                    });
+                    check(ctx, "shared_addresses_repeat_zero", r, Some(sink::path()));
+                    ctx.rep.add("shared_addresses.zero_items", (tz + lz) as u64);
+                }
             }
             8 => {
                 // chains whose size_hint has a non-zero but inexact lower bound: an exact piece (slice) chained
